@@ -2,7 +2,7 @@
    visitor configurations what the real `duke::read_class_multi` delivered to the harness'
    recording visitors and where the stream stood after every read.  The model reads the same
    bytes with the generated tables. *)
-From FB Require Export C17.Model C17.AttrTable C17.Struct Base.Run.
+From FB Require Export C17.Model C17.AttrTable C17.Struct C17.Replay C17.AcceptTable Base.Run.
 
 (* ---------- compact notation for the case files ----------
    Coq parses a numeral of type N through its number notation (slow: ~0.1 ms each), but a
@@ -148,10 +148,43 @@ Fixpoint insert_ev (x : ev) (l : list ev) : list ev :=
   end.
 Definition canon (l : list ev) : list ev := fold_right insert_ev [] l.
 
+(* ... and an annotations attribute without annotations leaves no trace in them (`Vec`): such events of
+   the model are dropped at these two levels before comparing *)
+Definition vec_empty (ac : accept_ctx) (e : ev) : bool :=
+  match e with
+  | EAttr name false body =>
+      match row_of ac name with
+      | Some row => match b_mode row with MExtend => count_of body =? 0 | _ => false end
+      | None => false
+      end
+  | _ => false
+  end.
+Definition is_vec (ac : accept_ctx) (e : ev) : option str :=
+  match e with
+  | EAttr name false _ =>
+      match row_of ac name with
+      | Some row => match b_mode row with MExtend => Some name | _ => None end
+      | None => None
+      end
+  | _ => None
+  end.
+(* two annotations attributes of the same name extend one Vec: one visible attribute *)
+Fixpoint dedup_vec (ac : accept_ctx) (seen : list str) (es : list ev) : list ev :=
+  match es with
+  | [] => []
+  | e :: es' =>
+    match is_vec ac e with
+    | Some name => if existsb (str_eqb name) seen then dedup_vec ac seen es' else e :: dedup_vec ac (name :: seen) es'
+    | None => e :: dedup_vec ac seen es'
+    end
+  end.
+Definition visible_through_tree (ac : accept_ctx) (es : list ev) : list ev :=
+  dedup_vec ac [] (filter (fun e => negb (vec_empty ac e)) es).
+
 Definition norm (e : ev) : ev :=
   match e with
-  | ERc an k n d (Some es) => ERc an k n d (Some (canon es))
-  | EField k a n d (Some es) => EField k a n d (Some (canon es))
+  | ERc an k n d (Some es) => ERc an k n d (Some (canon (visible_through_tree rc_accept es)))
+  | EField k a n d (Some es) => EField k a n d (Some (canon (visible_through_tree field_accept es)))
   | e => e
   end.
 
@@ -162,7 +195,11 @@ Definition trace_eqb (a b : option (list ev)) : bool := opt_eqb (list_eqb ev_eqb
 Definition answer := list (res (option (list ev) * N)).
 
 Inductive case :=
-| CStream (total : N) (words : list int) (runs : list (list vdesc * answer)).
+| CStream (total : N) (words : list int) (runs : list (list vdesc * answer))
+(* one class file: whether duke's tree builder read it (duke::read_class = Ok), whether replaying that
+   tree into the tree builder gave an equal tree, and per visitor configuration the trace that the
+   real ClassFile::accept delivered to the recording visitor *)
+| CReplay (total : N) (words : list int) (tree_ok rebuilt_equal : bool) (runs : list (vdesc * option (list ev))).
 
 Fixpoint model_reads (total : nat) (ds : list vdesc) (s : bytes) : answer :=
   match ds with
@@ -177,6 +214,26 @@ Fixpoint model_reads (total : nat) (ds : list vdesc) (s : bytes) : answer :=
 Definition answer_eqb (a b : answer) : bool :=
   list_eqb (res_eqb (pair_eqb trace_eqb N.eqb)) a b.
 
+(* ---------- equality of trees (to evaluate `rebuild` on the model side) ---------- *)
+Definition sval_eqb (a b : sval) : bool :=
+  match a, b with
+  | VBody x, VBody y => str_eqb x y
+  | VSrcs x, VSrcs y => list_eqb str_eqb x y
+  | _, _ => false
+  end.
+Definition item_eqb {K} (keqb : K -> K -> bool) (a b : titem K) : bool :=
+  opt_eqb (pair_eqb Bool.eqb Bool.eqb) (it_flags a) (it_flags b)
+  && list_eqb (pair_eqb str_eqb sval_eqb) (it_slots a) (it_slots b)
+  && list_eqb (pair_eqb str_eqb str_eqb) (it_unknown a) (it_unknown b)
+  && opt_eqb (pair_eqb (pair_eqb (pair_eqb N.eqb N.eqb) (list_eqb str_eqb)) keqb) (it_code a) (it_code b)
+  && list_eqb (pair_eqb (pair_eqb N.eqb N.eqb) keqb) (it_rcs a) (it_rcs b).
+Definition item0_eqb : titem unit -> titem unit -> bool := item_eqb (fun _ _ => true).
+Definition hdr_eqb : N * N * N -> N * N * N -> bool := pair_eqb (pair_eqb N.eqb N.eqb) N.eqb.
+Definition tree_eqb (a b : class_tree) : bool :=
+  item_eqb item0_eqb (t_item a) (t_item b)
+  && list_eqb (pair_eqb hdr_eqb item0_eqb) (t_fields a) (t_fields b)
+  && list_eqb (pair_eqb hdr_eqb (item_eqb item0_eqb)) (t_methods a) (t_methods b).
+
 Definition check (c : case) : bool :=
   match c with
   | CStream total words runs =>
@@ -185,4 +242,26 @@ Definition check (c : case) : bool :=
       (* the stream lies in the domain of the theorems: a sequence of encodings of well-formed class structures *)
       && stream_wf tables 8 s
       && forallb (fun r => answer_eqb (model_reads (N.to_nat total) (fst r) s) (snd r)) runs
+  | CReplay total words tree_ok rebuilt_equal runs =>
+      let s := unpack (N.to_nat total) words in
+      Nat.eqb (length s) (N.to_nat total)
+      && stream_wf tables 8 s
+      && match read_class g_len tables (v_full tables) s with
+         | Ok (t_full, []) =>
+             (* the model's tree builder succeeds exactly when duke's does ... *)
+             match build false tables accept_tables_gen t_full with
+             | Ok t =>
+                 tree_ok
+                 (* ... replaying into every recorded visitor gives the recorded trace, in accept()'s order ... *)
+                 && forallb (fun r => trace_eqb (accept_class tables accept_tables_gen (visitor_of (fst r)) t) (snd r)) runs
+                 (* ... and replaying into the tree builder reproduces the tree, in the model and in duke *)
+                 && rebuilt_equal
+                 && match build false tables accept_tables_gen (accept_class tables accept_tables_gen (v_full tables) t) with
+                    | Ok t' => tree_eqb t' t
+                    | Err => false
+                    end
+             | Err => negb tree_ok
+             end
+         | _ => false
+         end
   end.
